@@ -1042,6 +1042,55 @@ func lex4(c *Ctx) {
 			}
 		}
 		reportP(c, key, cv.Pos(), problems, "position = start of the iteration; text = the input from there to the current position (or the selecting character)")
+		// short option names are delimited: a '-' glued to the name (`-a-b`) is a syntax error, i.e. the
+		// scan goes on after this emit only past a test that the next byte is not '-' (or there is none)
+		isShort := false
+		for _, k := range kinds {
+			if k == "ShortOpt" || k == "OptSeq" {
+				isShort = true
+			}
+		}
+		if isShort {
+			cut := map[ir.Edge]bool{}
+			ir.Instrs(fn, func(in ssa.Instruction) {
+				bo, isBo := in.(*ssa.BinOp)
+				if !isBo {
+					return
+				}
+				// usage[pos] == '-' : false edge;  != : true edge
+				if k, isK := ir.ConstInt(bo.Y); isK && k == '-' && (bo.Op == token.EQL || bo.Op == token.NEQ) {
+					if ix, isIx := bo.X.(*ssa.Index); isIx && m.isUsage(ix.X) && m.isPosLoad(ix.Index) {
+						for _, e := range ir.EdgesWhere(fn, bo, bo.Op == token.NEQ) {
+							cut[ir.Edge{From: e.From, To: e.To}] = true
+						}
+					}
+				}
+				// pos at the end of the input: `pos < eof` false, `pos >= eof` / `pos == eof` true
+				if m.isPosLoad(bo.X) && m.eof[bo.Y] {
+					switch bo.Op {
+					case token.LSS, token.NEQ:
+						for _, e := range ir.EdgesWhere(fn, bo, false) {
+							cut[ir.Edge{From: e.From, To: e.To}] = true
+						}
+					case token.GEQ, token.EQL:
+						for _, e := range ir.EdgesWhere(fn, bo, true) {
+							cut[ir.Edge{From: e.From, To: e.To}] = true
+						}
+					}
+				}
+			})
+			free := false
+			for _, sc := range m.g.succ[cv.Block()] {
+				if cut[ir.Edge{From: cv.Block(), To: sc}] {
+					continue
+				}
+				if sc == main || m.g.reach([]*ssa.BasicBlock{sc}, nil, cut)[main] {
+					free = true
+				}
+			}
+			c.Check(!free, key+":delimited", cv.Pos(), "after a short option name the scan resumes only if the next byte is not '-' (or the input ends)",
+				"after this short option token the scan can resume without testing that the next byte is not '-': `-a-b` would be accepted")
+		}
 	}
 }
 
